@@ -10,7 +10,7 @@ from ..core import Disc, Subcheck, exc_detail, exc_key
 
 PROPERTY_ID = 'C20'
 LEVEL = 'exploration'
-RULE = ('send: 1-5 method calls through DBusClientConnection.callRemote on a UNIX-socket transport double, each with '
+RULE = ('recv also holds messages whose h arguments share an attachment (reference encoder in sharing mode; sub-check recv_shared and a third of the random multi-descriptor messages). send: 1-5 method calls through DBusClientConnection.callRemote on a UNIX-socket transport double, each with '
         '0-3 unix-fd arguments (top level, in arrays, in structs) mixed with plain values; oracle: for every call the '
         'transport saw sendFileDescriptor for each descriptor in argument order, then the write of that message, whose '
         'header declares exactly that count and whose h arguments are the indices 0..k-1 (strict reference decoder); a '
@@ -245,14 +245,24 @@ def _recv_stream(case):
         if m.get('nh') is not None:
             # any message type may carry descriptors on the wire (replies and signals of other implementations do)
             toks = _tokens(m['sig'], m['trees'])
-            trees = _replace_tokens(m['sig'], m['trees'], _Counter())
+            shared = None
+            if m.get('share'):
+                # an h value is an INDEX into the message's attachments: several arguments may name the same one (the
+                # sender attaches a descriptor once and refers to it twice); the reference encoder does so here
+                toks = list(dict.fromkeys(toks))
+                shared = R.SharedFds()
+                trees = m['trees']
+            else:
+                trees = _replace_tokens(m['sig'], m['trees'], _Counter())
             f = {R.FIELD_CODE[k]: v for k, v in m['fields'].items()}
             # descriptors the message declares and carries without any argument referring to them (legal: the header
             # count says how many travel with the message, the body need not use them all - or may be absent)
             spare = list(m.get('spare') or [])
             if toks or spare:
                 f[9] = len(toks) + len(spare)
-            raw = R.encode_variant(m['serial'] + len(toks), m['type'], m['serial'], f, m['sig'], trees, m['little'])
+            raw = R.encode_variant(m['serial'] + len(toks), m['type'], m['serial'], f, m['sig'], trees, m['little'],
+                                   fds=shared)
+            assert shared is None or list(shared) == toks, 'harness: shared attachments'
             out.append((raw, toks + spare))
         else:
             out.append((S.ref_message_bytes(m, m['little']), []))
@@ -412,6 +422,8 @@ def classify_recv(case):
         labels.append('split_reads')
     if case.get('handshake'):
         labels.append('pipelined_behind_BEGIN')
+    if any(m.get('share') for m in case['msgs']):
+        labels.append('arguments_sharing_an_attachment')
     if placement and max(sum(1 for _, r in placement if r <= i) - sum(len(stream[mj][1]) for mj in carriers if comp[mj] < i)
                          for i in range(len(bounds))) > 16:
         labels.append('>16 descriptors queued at once')
@@ -429,12 +441,18 @@ def recv_msg(draw, tok_base):
     toks = _tokens(sig, trees)
     mp = {t: tok_base + i for i, t in enumerate(toks)}
     trees = _replace_tokens(sig, trees, lambda t: mp[t])
+    share = len(toks) >= 2 and draw(st.integers(0, 2)) == 0
+    if share:
+        # every second descriptor argument refers to the first attachment again
+        trees = _replace_tokens(sig, trees, lambda t: tok_base if (t - tok_base) % 2 == 1 else t)
     t = draw(st.sampled_from([1, 1, 2, 3, 4]))
     fields = {1: {'path': '/o', 'member': 'Take'}, 2: {'reply_serial': 5}, 3: {'error_name': 'a.b.E', 'reply_serial': 5},
               4: {'path': '/o', 'member': 'Gave', 'interface': 'a.b'}}[t]
     m = {'type': t, 'fields': fields, 'sig': sig, 'trees': trees, 'pres': [],
          'no_reply': False, 'no_auto': False, 'serial': draw(st.integers(1, 2**32 - 1)), 'nh': nh,
          'little': draw(st.booleans())}
+    if share:
+        m['share'] = True
     nspare = draw(st.sampled_from([0, 0, 0, 1, 2]))
     if nspare:
         m['spare'] = [tok_base + nh + i for i in range(nspare)]
@@ -502,6 +520,26 @@ def enum_recv(tier):
                 yield case
                 if nfd:
                     yield dict(case, handshake=True)
+
+
+def enum_recv_shared(tier):
+    """Messages in which several h arguments name the same attachment, alone and followed by a message with a
+    descriptor of its own, descriptors delivered ahead of their message."""
+    for base in (0, 40):
+        for sig, trees in (('hh', [base, base]), ('hhh', [base, base + 1, base]), ('ahh', [[base, base + 1, base + 1], base]),
+                           ('(hs)h', [[base, 'x'], base])):
+            for follow in (False, True):
+                for hs in (False, True):
+                    msgs = [{'type': 4, 'fields': {'path': '/o', 'member': 'Gave', 'interface': 'a.b'}, 'sig': sig, 'trees': trees,
+                             'pres': [], 'no_reply': False, 'no_auto': False, 'serial': 1, 'nh': len(set(_tokens(sig, trees))),
+                             'little': not hs, 'share': True}]
+                    if follow:
+                        msgs.append({'type': 1, 'fields': {'path': '/o', 'member': 'Take'}, 'sig': 'h', 'trees': [base + 7],
+                                     'pres': [], 'no_reply': False, 'no_auto': False, 'serial': 2, 'nh': 1, 'little': True})
+                    case = {'msgs': msgs, 'cuts': [], 'fdpos': [0]}
+                    stream = _recv_stream(case)
+                    case['cuts'] = list(itertools.accumulate(len(r) for r, _ in stream))[:-1]
+                    yield dict(case, handshake=True) if hs else case
 
 
 def enum_recv_burst(tier):
@@ -603,6 +641,9 @@ SUBCHECKS = [
                              'or two connections), then a fresh one'),
     Subcheck('recv', run_recv, classify_recv, strategy=lambda tier: recv_case(tier),
              n={'quick': 400, 'thorough': 4000}),
+    Subcheck('recv_shared', run_recv, classify_recv, enumerate=enum_recv_shared, shards={'quick': 1, 'thorough': 1},
+             exhaustive_note='4 argument shapes in which h values share an attachment x followed or not by another descriptor '
+                             'message x with / without the handshake in the same stream'),
     Subcheck('recv_burst', run_recv, classify_recv, enumerate=enum_recv_burst, shards={'quick': 4, 'thorough': 4},
              exhaustive_note='bursts of 6/9/14 descriptor-carrying messages (up to 42 descriptors) with all descriptors '
                              'queued before the first byte, or all but the last few, under four chunkings'),
